@@ -1,7 +1,7 @@
-SPECIFICATION MCSpec
+SPECIFICATION MCSpecFunc
 CONSTANTS
-  FixReturn = TRUE
+  FixReturn = FALSE
   FixOrigin = TRUE
   Inherit = TRUE
   Variant = "fixed"
-INVARIANT P_Model
+CONSTRAINT MRefute
